@@ -283,7 +283,9 @@ class ResetInterp:
             if base is not None:
                 info.excl_agent, info.excl_cell = base.excl_agent, base.excl_cell
             conds: List[ast.AST] = []
+            from .normalise import nnf
             for c in g.ifs:
+                c = nnf(c)
                 conds += c.values if isinstance(c, ast.BoolOp) and isinstance(c.op, ast.And) \
                     else [c]
             for c in conds:
@@ -362,15 +364,18 @@ class ResetInterp:
                         cx.raises.append((b.lineno, src(b.exc)[:60] if b.exc else '', f.name))
                 self._facts(s.test, cx)
                 return None
-            if isinstance(s.test, ast.Name) and s.test.id in cx.flags:
-                v = cx.flags[s.test.id]
+            test, negated = s.test, False
+            while isinstance(test, ast.UnaryOp) and isinstance(test.op, ast.Not):
+                test, negated = test.operand, not negated
+            if isinstance(test, ast.Name) and test.id in cx.flags:
+                v = cx.flags[test.id]
                 branches = [True, False] if v is None else [v]
                 res: List[Ctx] = []
                 for b in branches:
                     c2 = self._fork(cx)
-                    c2.flags[s.test.id] = b
-                    c2.path.append(f'{s.test.id}={b}')
-                    for c3 in self.block(s.body if b else s.orelse, c2, f):
+                    c2.flags[test.id] = b
+                    c2.path.append(f'{test.id}={b}')
+                    for c3 in self.block(s.body if b != negated else s.orelse, c2, f):
                         res += self.block(rest, c3, f)
                 return res
             # data-dependent branch: interpret both, join by havoc of assigned names
@@ -428,6 +433,8 @@ class ResetInterp:
         return None
 
     def _facts(self, test: ast.AST, cx: Ctx) -> None:
+        from .normalise import nnf
+        test = nnf(test)
         disj = test.values if isinstance(test, ast.BoolOp) and isinstance(test.op, ast.Or) \
             else [test]
         for d in disj:
